@@ -82,3 +82,17 @@ Print Assumptions C08_trunc_is_a_long.
 Print Assumptions C08_array_holds_its_arguments.
 Print Assumptions C08_empty_and_null.
 Print Assumptions C08_min_max_over_all_arguments.
+
+(* State space: the objects this property's model stands for have exactly the fields the model accounts for (StateSpace.v;
+   gen/StateSpaceGen.v is regenerated from the Go sources on every run). A new field - a cache, a memo, a counter - is state
+   the model does not have, so the theorems above would no longer be about the object. *)
+From Coq Require Import String.
+Require Import StateSpaceGen StateSpace.
+Open Scope string_scope.
+Theorem C08_state_space :
+  fields_of "calculator/functions.DefaultFunctionCollection" = fields ["embedded *FunctionCollection"] /\
+  fields_of "calculator/functions.FunctionCollection" = fields ["functions"] /\
+  fields_of "calculator/functions.DelegatedFunction" = fields ["name"; "calculator"] /\
+  fields_of "variants.Variant" = fields ["typ"; "value"].
+Proof. vm_compute. repeat split; reflexivity. Qed.
+Print Assumptions C08_state_space.
